@@ -30,6 +30,8 @@ pub enum Op {
     CancelledQuery { k: u64 },
     /// Parallel warm-up of diagnostics through the H1 task executor.
     Warmup { seed: u64, workers: usize },
+    /// A compiler flag changes (add_withdraw_gas / panic_backtrace / unsafe_panic).
+    SetFlag { which: u8, value: bool },
     /// Compare the long-lived database with a fresh one.
     Check,
 }
@@ -62,6 +64,7 @@ pub struct RunStats {
 struct World {
     disk: BTreeMap<String, Option<String>>,
     overrides: BTreeMap<String, String>,
+    flags: BTreeMap<u8, bool>,
 }
 impl World {
     fn effective(&self, file: &str) -> Option<String> {
@@ -76,6 +79,9 @@ impl World {
         }
         for (k, v) in &self.overrides {
             s.push_str(&format!("O{k}\u{1}{v}\u{2}"));
+        }
+        for (k, v) in &self.flags {
+            s.push_str(&format!("F{k}={v}\u{2}"));
         }
         fnv64(s.as_bytes()) ^ starknet as u64
     }
@@ -114,6 +120,9 @@ fn fresh_observation(root: &Path, world: &World, starknet: bool, project: &str, 
     FRESH_MISSES.fetch_add(1, std::sync::atomic::Ordering::Relaxed);
     let r = (|| {
         let mut sut = Sut::new(root, starknet)?;
+        for (k, v) in &world.flags {
+            sut.set_flag(*k, *v);
+        }
         for (f, c) in &world.overrides {
             sut.set_override(f, Some(c.clone()));
         }
@@ -189,6 +198,11 @@ pub fn run_history(project: &Project, ops: &[Op], scratch: &Path, use_memo: bool
                 sut.set_override("__verif_touch__.cairo", Some(format!("// {touch}")));
                 world.overrides.insert("__verif_touch__.cairo".into(), format!("// {touch}"));
                 stats.counters.inc("disk/delete");
+            }
+            Op::SetFlag { which, value } => {
+                sut.set_flag(*which, *value);
+                world.flags.insert(*which % 3, *value);
+                stats.counters.inc(&format!("flag/{}", ["add_withdraw_gas", "panic_backtrace", "unsafe_panic"][(*which % 3) as usize]));
             }
             Op::Query { kind, pick, snapshot } => {
                 let r = std::panic::catch_unwind(std::panic::AssertUnwindSafe(|| {
@@ -297,6 +311,9 @@ pub fn run_history(project: &Project, ops: &[Op], scratch: &Path, use_memo: bool
                             // on this text, whatever the history).
                             let fresh_same = Sut::new(scratch, project.starknet)
                                 .map(|mut f| {
+                                    for (k, v) in &world.flags {
+                                        f.set_flag(*k, *v);
+                                    }
                                     for (file, c) in &world.overrides {
                                         f.set_override(file, Some(c.clone()));
                                     }
@@ -401,6 +418,14 @@ pub fn generate(project: &Project, seed: u64, max_len: usize, check_every_step: 
                 }
                 continue;
             }
+        }
+        if rng.chance(1, 40) {
+            ops.push(Op::SetFlag { which: rng.below(3) as u8, value: rng.chance(1, 2) });
+            if (rng.below(100) as u32) < p_check {
+                ops.push(Op::Check);
+            }
+            n_edits += 1;
+            continue;
         }
         let original = project.files.get(&file).cloned().unwrap_or_default();
         let roll = rng.below(100) as u32;
@@ -510,6 +535,7 @@ fn signature(project: &Project, ops: &[Op], v: &Violation) -> String {
             Op::DiskDelete { .. } => Some("disk:delete".into()),
             Op::CancelledQuery { .. } => Some("cancel".into()),
             Op::Warmup { .. } => Some("warmup".into()),
+            Op::SetFlag { .. } => Some("flag".into()),
             Op::Query { .. } => Some("query".into()),
             Op::Check => None,
         })
